@@ -66,7 +66,7 @@ Proof.
   destruct (cover_step_safe C Hf (p_world s) (p_k s) (p_r s) o w' M S Ho Ha) as (r' & k' & raws & Hrd & S' & Hsafe).
   assert (Hrd' : read_batch (pc_reader P) (w_fs w') (p_r s, kdrained (kernel_op (p_k s) (w_fs (p_world s)) o), [])
                    (k_queue (kernel_op (p_k s) (w_fs (p_world s)) o)) = Done (r', k', raws)) by exact Hrd.
-  destruct (tie_strong P s o w' r' k' raws HF Hidle Hal (rs_queue _ _ _ _ S) Htbl Ha Hrd' Hsafe)
+  destruct (tie_strong P s o w' r' k' raws HF Hidle Hal Htbl Ha Hrd' Hsafe)
     as (nit & s' & obs & Hrun & Hout & E1 & E2 & E3 & Hidle' & Hal' & Htbl').
   exists nit, s', obs, raws. split; [exact Hrun|]. split; [|split; [exact E1|split; [exact Hout|]]].
   - constructor; try assumption. now rewrite E1, E2, E3.
